@@ -263,7 +263,7 @@ func (c *c09) Run(cs core.Case) core.Result {
 		defer regIn.Close()
 		defer regOut.Close()
 		for _, l := range p.Lens {
-			for _, placement := range []string{"trailing-guard", "leading-guard", "alias-trailing"} {
+			for _, placement := range []string{"trailing-guard", "leading-guard", "alias-trailing", "spare-capacity"} {
 				for ci := 0; ci < 3; ci++ {
 					cst := []int{rng.Intn(65536), 0xffff, 1 + rng.Intn(65535)}[ci]
 					gf16.Row(uint16(cst), &row)
@@ -285,6 +285,14 @@ func (c *c09) Run(cs core.Case) core.Result {
 							in = regIn.Tail(l)
 							out = in
 							inOff = len(regIn.Data) - l
+						case "spare-capacity":
+							// ordinary sub-slices: capacity reaches far beyond the
+							// length, differently for the two buffers
+							inOff, outOff = 64, 4096+128
+							if ci == 1 {
+								inOff, outOff = 4096+32, 66
+							}
+							in, out = regIn.Data[inOff:inOff+l], regOut.Data[outOff:outOff+l]
 						}
 						rng.Read(in)
 						inCopy := append([]byte(nil), in...)
@@ -325,7 +333,7 @@ func (c *c09) Run(cs core.Case) core.Result {
 				}
 			}
 		}
-		r.Sample(map[string]interface{}{"mode": "lengths", "path": p.Path, "lengths": p.Lens, "placements": []string{"trailing-guard", "leading-guard", "alias-trailing"}})
+		r.Sample(map[string]interface{}{"mode": "lengths", "path": p.Path, "lengths": p.Lens, "placements": []string{"trailing-guard", "leading-guard", "alias-trailing", "spare-capacity"}})
 
 	case "concurrent":
 		// 16 goroutines, private inputs and outputs, same kernels at the same
